@@ -408,6 +408,28 @@ def run(tier, seed):
             "model/M5time.v is hand-written; tied to router.go/load_balancer.go/target.go/health_check.go/service.go only by this correspondence run",
             "probe I/O and target I/O are scripted (http.DefaultTransport / ReverseProxy.Transport replaced); real sockets are not exercised",
         ]
+        # probe leaks under the real scheduler: a redeploy and a removal of one service issued together (harness/c17_race_test.go)
+        race_rows, race_out = [], ""
+        if harness_ok or outs:
+            rc_r, race_out = go_test(work, ["common_test.go", "sim_test.go", "simrun_test.go", "assets_test.go", "c17_test.go", "c17_race_test.go"],
+                                     "^TestVerifC17Race$", {"VERIF_OUT": work.path("c17race.jsonl"), "VERIF_ROUNDS": "30" if tier == "quick" else "300"},
+                                     synctest=True, timeout=900)
+            if rc_r == 0 and os.path.exists(work.path("c17race.jsonl")):
+                race_rows = read_jsonl(work.path("c17race.jsonl"))
+            else:
+                harness_ok, gout = False, race_out
+        race_bad = [r for r in race_rows if r["probed_but_not_listed"]]
+        res.coverage["redeploy_vs_remove_race"] = {
+            "rounds": len(race_rows), "outcomes": dict(collections.Counter("deploy:%s remove:%s listed:%d" % (r["deploy"], r["remove"], r["listed_targets"])
+                                                                           for r in race_rows)),
+            "rounds_with_a_probed_target_no_service_lists": len(race_bad)}
+        if race_bad and not mon_fail:
+            res.violation("race-leak", {"property": "C17", "seed": seed, "tier": tier,
+                                        "what": "a redeploy and a removal of one service issued together (real scheduler): after both commands have "
+                                                "returned the proxy keeps probing a target that no listed service has - nothing will ever stop that loop",
+                                        "rounds": race_bad[:3],
+                                        "replay": "go test -run TestVerifC17Race (harness/c17_race_test.go), real scheduler"})
+            return res.finish()
         if mon_fail:
             i, fails = mon_fail[0]
             items = term_items(project(outs[i]["events"]))
